@@ -322,6 +322,20 @@ func replay[S any](t *testing.T, p Prop[S], file string) {
 	fmt.Printf("REPLAY-OK property=%s trace=%016x\n", p.ID, out.Sched.Trace)
 }
 
+var pauseLengths = []int64{int64(time.Millisecond), int64(120 * time.Millisecond), int64(1500 * time.Millisecond), int64(6500 * time.Millisecond), int64(32 * time.Second), int64(125 * time.Second)}
+
+// DrawSchedPauses is DrawSched plus up to three scheduler pauses (see SchedConfig.Pauses).
+func DrawSchedPauses(rt *rapid.T, maxTape int) SchedConfig {
+	c := DrawSched(rt, maxTape)
+	if rapid.IntRange(0, 2).Draw(rt, "pausing") == 0 {
+		n := rapid.IntRange(1, 3).Draw(rt, "npauses")
+		for i := 0; i < n; i++ {
+			c.Pauses = append(c.Pauses, Pause{At: rapid.IntRange(1, 120).Draw(rt, "pauseAt"), Ns: pauseLengths[rapid.IntRange(0, len(pauseLengths)-1).Draw(rt, "pauseLen")] + int64(i)})
+		}
+	}
+	return c
+}
+
 // DrawSched draws the scheduling part of a scenario.
 func DrawSched(rt *rapid.T, maxTape int) SchedConfig {
 	var c SchedConfig
